@@ -1210,7 +1210,7 @@ ConflictEpisode(kind, chain, on, res, how, rec) ==
              /\ AiAdopt(g, [wl EXCEPT ![rr.last] = wl[head], ![head] = EmptyWL],
                            [ini EXCEPT ![rr.last] = ini[head], ![head] = NoMaps], rr.notes,
                            IF how = "commit" /\ "pick_concluded_by_commit" \in Dev /\ ok
-                              /\ \E c \in (nc + 1)..rr.nc : \E f \in File : HasAI(rr.notes[c].files[f])
+                              /\ \E i \in DOMAIN chain : \E f \in File : HasAI(notes[chain[i]].files[f])
                            THEN {"pick_concluded_by_commit"} ELSE {})
              /\ ops' = ops \cup {kind}
              /\ Step([rec EXCEPT !.exp = IF Gen THEN [nc |-> r.nc, t |-> r.tree[r.last], stops |-> r.stops] ELSE <<>>])
